@@ -412,6 +412,20 @@ def run(ctx: Ctx) -> int:
         fn=ol,
     )
 
+    # environment channel, list-valued options: text that does not load as a list is one item - the TEXT, as on the
+    # command line (--names null gives ['null'] for List[str]); wrapping the loaded value would make `null`, `a: b`,
+    # `{a: 1}` items of another kind than the same text given as a command line item
+    lev5 = ctx.func("_core:ArgumentParser._load_env_vars")
+    wraps = [e for e in ast.walk(lev5) if isinstance(e, ast.IfExp) and isinstance(e.orelse, ast.List) and len(e.orelse.elts) == 1 and isinstance(e.test, ast.Call) and call_leaf(e.test) == "isinstance"]
+    ctx.need(wraps, "_load_env_vars: <loaded> if isinstance(<loaded>, list) else [<text>]")
+    for e in wraps:
+        loaded_v = ast.unparse(e.test.args[0])
+        item = e.orelse.elts[0]
+        loads_ = [c for c in calls_in(lev5) if call_leaf(c) == "load_value" and c.args and isinstance(c.args[0], ast.Name)]
+        texts = {c.args[0].id for c in loads_}
+        ok = isinstance(item, ast.Name) and item.id in texts and ast.unparse(item) != loaded_v
+        ctx.oblige("C05.c", ok, e, "a non-list environment value of a list option is kept as one item of text" if ok else f"`{src(e, 70)}` wraps the LOADED value: APP_NAMES=null gives [None] and APP_NAMES='a: b' gives [{{'a': 'b'}}], which str / Enum / Literal items reject, while --names null and --names 'a: b' are accepted on the command line", fn=lev5, construct="env list item stays text")
+
     return ctx.finish(
         explanation=(
             "The channels (argparse actions, namespace application, environment loading) are different code that must funnel into one checker: every store of an action's value derives from "
